@@ -270,4 +270,117 @@ theorem one_bind_per_node (root : Str) (ks : List RK) (bs : List Bind)
   rw [this] at hres
   cases hres
 
+/-! ## header_to_bind -/
+
+/-! Facts about the tables regenerated from the current source (re-checked by the kernel on every run). -/
+
+/-- every entry of `aliases.survey_header` sends its own key to its documented tokens, under both
+    delimiter regimes (`::` seen in the header row or not) -/
+theorem alias_entries_land :
+    surveyAliases.all (fun at_ =>
+      (processHeader false surveyAliases surveyColumns at_.1).map (·.2) == some at_.2 &&
+      (processHeader true surveyAliases surveyColumns at_.1).map (·.2) == some at_.2) = true := by
+  decide +kernel
+
+/-- the documented logic-column names (XLSForm reference; the harness's own copy) and the bind
+    attribute each must reach -/
+def documentedBindColumns : List (String × String) :=
+  [("read_only", "readonly"), ("readonly", "readonly"), ("relevant", "relevant"), ("relevance", "relevant"),
+   ("required", "required"), ("constraint", "constraint"), ("constraint_message", "jr:constraintMsg"),
+   ("constraining_message", "jr:constraintMsg"), ("calculation", "calculate"), ("calculate", "calculate"),
+   ("required_message", "jr:requiredMsg"), ("requiredmsg", "jr:requiredMsg"),
+   ("noapperrorstring", "jr:noAppErrorString"), ("no_app_error_string", "jr:noAppErrorString"),
+   ("save_to", "entities:saveto")]
+
+/-- the regenerated alias table sends every documented logic column to `(bind, attr)` … -/
+theorem documented_columns_reach_bind :
+    documentedBindColumns.all (fun ca =>
+      lookup ca.1.toList surveyAliases == some ["bind".toList, ca.2.toList]) = true := by
+  decide +kernel
+
+/-- … and sends nothing else there -/
+theorem only_documented_columns_reach_bind :
+    surveyAliases.all (fun at_ =>
+      at_.2.head? != some "bind".toList ||
+      documentedBindColumns.any (fun ca => ca.1.toList == at_.1 && at_.2 == ["bind".toList, ca.2.toList])) = true := by
+  decide +kernel
+
+theorem columns_are_snake : surveyColumns.all (fun c => toSnakeCase c == c) = true := by decide +kernel
+
+theorem jr_is_no_alias : lookup "jr".toList surveyAliases = none := by decide +kernel
+
+theorem snake_jr : toSnakeCase "jr".toList = "jr".toList := by decide +kernel
+
+/-- every type-table entry has pairwise distinct bind keys (hypothesis of `attrs_nodup`) -/
+theorem type_table_bind_keys_nodup :
+    Pyxv.Gen.questionTypes.all (fun te =>
+      match typeBind te.1.toList with
+      | some tt => decide (tt.map (·.1)).Nodup
+      | none => true) = true := by
+  decide +kernel
+
+/-- every type-table entry that has a bind section prescribes a data type -/
+theorem type_table_binds_have_type :
+    Pyxv.Gen.questionTypes.all (fun te =>
+      match typeBind te.1.toList with
+      | some tt => (lookup "type".toList tt).isSome
+      | none => true) = true := by
+  decide +kernel
+
+/-- `BINDING_CONVERSIONS` is the yes/no table read as XPath booleans: each key is a `yes_no`
+    spelling and maps to `true()` / `false()` accordingly -/
+theorem conversions_agree_with_yes_no :
+    Pyxv.Gen.bindingConversions.all (fun kv =>
+      match Pyxv.Gen.yesNo.find? (fun p => p.1 == kv.1) with
+      | some (_, b) => kv.2 == (if b then "true()" else "false()")
+      | none => false) = true := by
+  decide +kernel
+
+/-- **header_to_bind.**  Every spelling `h` (any case of ASCII letters, any leading / trailing /
+    repeated inner whitespace, no colon) whose snake-case form is a key of the regenerated alias table
+    with a grouped target `toks` is mapped by `process_header` to exactly `toks` — in particular
+    (`documented_columns_reach_bind`) every documented logic column reaches `(bind, attr)`.  Under
+    both delimiter regimes. -/
+theorem header_to_bind (udc : Bool) (h : Str) (toks : List Str)
+    (hc : ∀ c ∈ h, c ≠ ':')
+    (hl : lookup (toSnakeCase h) surveyAliases = some toks) (h2 : 2 ≤ toks.length) :
+    processHeader udc surveyAliases surveyColumns h = some (.tup, toks) := by
+  have hsnake : ∀ c, surveyColumns.contains c = true → toSnakeCase c = c := by
+    intro c hcm
+    have := List.all_eq_true.mp columns_are_snake c (List.contains_iff_mem.mp hcm)
+    simpa using this
+  have b1 : (surveyColumns.contains h && (lookup h surveyAliases).isNone) = false := by
+    cases hm : surveyColumns.contains h with
+    | false => rfl
+    | true =>
+      have := hsnake h hm
+      rw [this] at hl
+      rw [hl]; rfl
+  have b2 : (surveyColumns.contains (toSnakeCase h) && (lookup (toSnakeCase h) surveyAliases).isNone) = false := by
+    rw [hl]; simp
+  have hne : strip h ≠ "jr".toList := by
+    intro e
+    have : toSnakeCase h = "jr".toList := by rw [← toSnakeCase_strip, e, snake_jr]
+    rw [this, jr_is_no_alias] at hl
+    cases hl
+  have htok : (if (udc || isInfix "::".toList h) = true then some ((splitOn2 ':' h).map strip)
+      else jrFix ((splitOnChar ':' h).map strip)) = some [strip h] := by
+    rw [isInfix_dcolon_none h hc, Bool.or_false]
+    cases udc with
+    | true => simp [splitOn2_none ':' h hc]
+    | false =>
+      simp only [Bool.false_eq_true, if_false, splitOnChar_none ':' h hc, List.map_cons, List.map_nil]
+      unfold jrFix
+      rw [if_neg hne]
+      rfl
+  unfold processHeader
+  rw [b1]
+  simp only [Bool.false_eq_true, if_false]
+  rw [b2]
+  simp only [Bool.false_eq_true, if_false]
+  rw [htok]
+  simp only [toSnakeCase_strip, hl]
+  match toks, h2 with
+  | a :: b :: t, _ => simp
+
 end Pyxv.C05
